@@ -9,6 +9,7 @@ mb <p>             is_meta_base_path(p)                      -> T | F
 tm <p> <0|1>       to_meta_base_path(p, is_dataset)          -> hex
 td <p>             to_data_node_path(p)                      -> hex
 node <abs> <g|d>   plant a raw node                          -> ok
+rop delete|copy|move <abs> [<abs>]   raw operation on the planted tree -> ok
 keys <g>           sorted user-visible keys of group g       -> keys hex…
 len <g>            len(group)                                -> len n
 visit <g>          sorted names presented by visit           -> visit hex…
@@ -63,6 +64,18 @@ def step (s : Raw) : List String → Raw × String
     match unhexL p, k with
     | some p, "g" => (s ++ [⟨p, true⟩], "ok")
     | some p, "d" => (s ++ [⟨p, false⟩], "ok")
+    | _, _ => (s, "bad-op")
+  | ["rop", "delete", a] =>
+    match unhexL a with
+    | some a => (applyRaw (.delete a) s, "ok")
+    | none => (s, "bad-op")
+  | ["rop", "copy", a, b] =>
+    match unhexL a, unhexL b with
+    | some a, some b => (applyRaw (.copy a b) s, "ok")
+    | _, _ => (s, "bad-op")
+  | ["rop", "move", a, b] =>
+    match unhexL a, unhexL b with
+    | some a, some b => (applyRaw (.move a b) s, "ok")
     | _, _ => (s, "bad-op")
   | ["keys", g] =>
     match unhexL g with
